@@ -83,6 +83,9 @@ def s_runtime(ctx):
 def run(ctx):
     prog = ctx.prog()
     s_runtime(ctx)
+    # the stream a socket reads is the TCB's: the reordering heap pops segments in circular sequence order (shared with C01 / C12)
+    from . import c01
+    c01.check_heap_order(ctx, "S-HEAPORD")
     # ---------------------------------------------------------------- S-ORDER
     writers = [prog.method("Socket", "send")]
     for b in prog.trait_impl_bodies(K.SESSION_SEND):
